@@ -2,7 +2,7 @@
 from fractions import Fraction as Fr
 import numpy as np
 from harness import coqio as Q
-from harness.impl import family_wcs, exc_name
+from harness.impl import poke, family_wcs, exc_name
 
 CORR = "C03_corr"
 IMPORTS = ["M_Slicing", "Shape", "M_ExtraCoords", "M_GlobalCoords"]
@@ -291,7 +291,7 @@ def run(case):
     import astropy.units as u
     if case["fam"] == "wcsec":
         return _run_wcsec(case)
-    cube = build(case)
+    cube = poke(build(case), case["key"])
     parent = cube
     nd0 = len(case["shape"])
     pll = parent.wcs.low_level_wcs
@@ -313,7 +313,7 @@ def run(case):
             elif h[0] == "remove":
                 cube.global_coords.remove(f"u{h[1]}")
             else:
-                cube = cube[Q.np_ints(case["key"], Q.dec_items(h[1]))]
+                cube = poke(cube, case["key"])[Q.np_ints(case["key"], Q.dec_items(h[1]))]
                 nodes.append(cube)
         except Exception as e:  # noqa
             exc = exc_name(e)
